@@ -21,7 +21,7 @@ VERIF = os.path.dirname(HERE)
 sys.path.insert(0, VERIF)
 from harness import common  # noqa: E402
 
-OUT = os.path.join(VERIF, "lean", "PytypeModel", "Generated", "PytdSchema.lean")
+OUT = os.path.join(os.environ.get("VERIF_LEAN_DIR") or os.path.join(VERIF, "lean"), "PytypeModel", "Generated", "PytdSchema.lean")
 
 
 import re
